@@ -561,7 +561,7 @@ def required_labels(tier):
 
 def phases(tier, seed):
     os.makedirs(os.path.join(ROOT, '.work'), exist_ok=True)
-    n = 19200 if tier == 'quick' else 64000
+    n = 19200 if tier == 'quick' else 600000
     return [
         Enum('documented-exclusions', exclusion_grid, exhaustive=True, note='every documented exclusion spelled out'),
         Enum('serializer-validation', serializer_grid, exhaustive=True,
